@@ -496,6 +496,39 @@ static void s_run_uri(const uint8_t *p, size_t n, const char *variant) {
         if (!mon && !pq.ptr && au.ptr && au.ptr + au.len != end) {
             mon = "BAD:framing:authority-only-text-does-not-end-with-authority";
         }
+        /* delimiters: the authority ends at the first '/' or '?', the path at the first '?' */
+        if (!mon && au.len && (memchr(au.ptr, '/', au.len) || memchr(au.ptr, '?', au.len))) {
+            mon = "BAD:framing:authority-contains-a-path-or-query-delimiter";
+        }
+        if (!mon && pa.len && memchr(pa.ptr, '?', pa.len)) {
+            mon = "BAD:framing:path-contains-a-question-mark";
+        }
+        /* userinfo = user [ ':' password ] at the start of the authority, then '@', then the host (after '[' for a literal) */
+        const struct aws_byte_cursor ui = uri.userinfo, us = uri.user, pw = uri.password, hn = uri.host_name;
+        if (!mon && ui.ptr && ui.ptr != au.ptr) {
+            mon = "BAD:framing:userinfo-does-not-start-the-authority";
+        }
+        if (!mon && ui.ptr && (ui.ptr + ui.len >= end || ui.ptr[ui.len] != '@')) {
+            mon = "BAD:framing:userinfo-is-not-followed-by-@";
+        }
+        if (!mon && ui.ptr && us.ptr != ui.ptr) {
+            mon = "BAD:framing:user-does-not-start-userinfo";
+        }
+        if (!mon && pw.ptr && (pw.ptr != us.ptr + us.len + 1 || pw.ptr + pw.len != ui.ptr + ui.len)) {
+            mon = "BAD:framing:user-:-password-do-not-tile-userinfo";
+        }
+        if (!mon && ui.ptr && !pw.ptr && us.len != ui.len) {
+            mon = "BAD:framing:user-is-not-the-whole-userinfo";
+        }
+        if (!mon && hn.ptr && au.ptr) {
+            const uint8_t *hs = ui.ptr ? ui.ptr + ui.len + 1 : au.ptr; /* where the host text starts */
+            if (hs < au.ptr + au.len && *hs == '[') {
+                hs++;
+            }
+            if (hn.ptr != hs || hn.ptr + hn.len > au.ptr + au.len) {
+                mon = "BAD:framing:host_name-does-not-start-behind-userinfo-or-leaves-the-authority";
+            }
+        }
     }
     size_t params = 0;
     s_query_iter(*aws_uri_query_string(&uri), &v, &params, &mon);
@@ -589,6 +622,12 @@ static void s_run_date(const uint8_t *p, size_t n, const char *variant) {
         }
         printf("P date %s %s ", variant, names[i]);
         s_class(rc);
+        if (!rc) {
+            printf(" utc=%d", (int)dt.utc_assumed);
+            if (dt.utc_assumed) {
+                printf(" ts=%lld", (long long)dt.timestamp);
+            }
+        }
         printf(" chan=%s views=- canary=%s\n", s_chan(rc != 0), can);
     }
     if (n <= AWS_DATE_TIME_STR_MAX_LEN + 8) {
@@ -600,6 +639,12 @@ static void s_run_date(const uint8_t *p, size_t n, const char *variant) {
         int rc = aws_date_time_init_from_str(&dt, &b, AWS_DATE_FORMAT_AUTO_DETECT);
         printf("P date %s buf_auto ", variant);
         s_class(rc);
+        if (!rc) {
+            printf(" utc=%d", (int)dt.utc_assumed);
+            if (dt.utc_assumed) {
+                printf(" ts=%lld", (long long)dt.timestamp);
+            }
+        }
         printf(" chan=%s views=- canary=-\n", s_chan(rc != 0));
     }
 }
@@ -634,7 +679,15 @@ static void s_decode_variants(
         static const char *kn[] = {"exact", "margins", "short", "slack"};
         printf("P %s %s decode_%s ", parser, variant, kn[k]);
         s_class(rc);
-        printf(" outlen=%zu chan=%s views=- canary=%s\n", out.len, s_chan(rc != 0), can);
+        printf(" outlen=%zu", out.len);
+        if (!rc && k == 0 && can[0] == 'o') {
+            uint64_t hsh = 14695981039346656037ull;
+            for (size_t i = 0; i < out.len; ++i) {
+                hsh = (hsh ^ out.buffer[i]) * 1099511628211ull;
+            }
+            printf(" fnv=%016llx", (unsigned long long)hsh);
+        }
+        printf(" chan=%s views=- canary=%s\n", s_chan(rc != 0), can);
         s_obuf_free(&o);
     }
 }
